@@ -68,6 +68,7 @@ func main() {
 	onlyRule := flag.String("rule", "", "run only this rule (debugging; no evidence written)")
 	verbose := flag.Bool("v", false, "print every obligation")
 	manifest := flag.Bool("manifest", false, "print MANIFEST.json")
+	flag.BoolVar(&dryRun, "dry", false, "do not write evidence or replay files (self-test against scratch copies)")
 	flag.Parse()
 	if *manifest {
 		writeManifest()
@@ -121,6 +122,8 @@ func main() {
 	}
 	os.Exit(run(*prop, spec, *tier, *repo, *verif, *onlyRule, replayKey, seed, *verbose))
 }
+
+var dryRun bool
 
 func flagSet(name string) bool {
 	set := false
